@@ -488,6 +488,7 @@ impl<'g> Cx<'g> {
             (Ty::Bool, Ty::Bool) | (Ty::Unit, Ty::Unit) | (Ty::Dur, Ty::Dur) => true,
             (Ty::List(x, _), Ty::List(y, _)) | (Ty::Opt(x), Ty::Opt(y)) => Self::same_shape(x, y),
             (Ty::Map(a, b, _), Ty::Map(c, d, _)) => Self::same_shape(a, c) && Self::same_shape(b, d),
+            (Ty::Set(a), Ty::Set(b)) => Self::same_shape(a, b),
             (Ty::Tuple(x), Ty::Tuple(y)) => x.len() == y.len() && x.iter().zip(y.iter()).all(|(p, q)| Self::same_shape(p, q)),
             (Ty::Named(x), Ty::Named(y)) | (Ty::Opaque(x), Ty::Opaque(y)) => x == y,
             _ => false,
@@ -536,6 +537,7 @@ impl<'g> Cx<'g> {
             }
             return Ok((format!("({})", out), Ty::Named(en)));
         }
+        let name = self.g.tkey(&self.file, &name);
         let info = match self.g.structs.get(&name) {
             Some(i) => i.clone(),
             None => return self.bail(s.span(), format!("struct `{}` is not a selected type", name)),
@@ -599,6 +601,8 @@ impl<'g> Cx<'g> {
                         let mut t = segs[n - 2].clone();
                         if t == "Self" {
                             t = self.self_ty.clone().unwrap_or(t);
+                        } else {
+                            t = self.g.tkey(&self.file, &t);
                         }
                         if self.g.structs.contains_key(&t) || self.g.enums.contains_key(&t) {
                             (Some(t), segs[n - 1].clone())
@@ -759,7 +763,7 @@ impl<'g> Cx<'g> {
                         st.map(|s| format!("{}::", s)).unwrap_or_default(),
                         name
                     ),
-                    missing: Some(crate::Missing { self_ty: st.map(|s| s.to_string()), name: name.to_string() }),
+                    missing: Some(crate::Missing { self_ty: st.map(|s| crate::globals::simple_of(s).to_string()), name: name.to_string() }),
                 })
             }
         };
@@ -992,6 +996,18 @@ impl<'g> Cx<'g> {
     }
 
     fn try_expr(&mut self, t: &syn::ExprTry, stmts: &mut Vec<Stmt>) -> R<(String, Ty)> {
+        if self.err.is_none() && matches!(self.ret, Ty::Opt(_)) {
+            // `e?` in a fn returning `Option`: the value of `Some`, or `return None`
+            let (v, vt) = self.expr(&t.expr, None, stmts)?;
+            let inner = match vt {
+                Ty::Opt(i) => *i,
+                _ => return self.bail(t.span(), "`?` in a fn returning `Option` on a value that is not an `Option`"),
+            };
+            let r = self.early_payload("none");
+            let x = self.fresh();
+            stmts.push(Stmt::Bind(x.clone(), Doc::atom(format!("RustSem.try_option {} {}", v, r))));
+            return Ok((x, inner));
+        }
         self.try_call(&t.expr, t.span(), true, stmts)
     }
 
@@ -1093,6 +1109,24 @@ impl<'g> Cx<'g> {
             };
             return Ok(("[]".into(), t));
         }
+        if segs.len() >= 2 && segs[segs.len() - 2] == "Cursor" && last == "new" && args.len() == 1 {
+            // `io::Cursor::new(slice)` read through `io::Read`
+            if matches!(args[0], syn::Expr::Reference(r) if r.mutability.is_some()) {
+                return self.bail(whole.span(), "`Cursor::new(&mut buffer)` (a writer into a local buffer) is not supported");
+            }
+            let (t, ty) = self.expr(args[0], None, stmts)?;
+            if !matches!(&ty, Ty::List(e, _) if matches!(**e, Ty::Int(8))) {
+                return self.bail(whole.span(), "`Cursor::new` needs a byte slice");
+            }
+            return Ok((format!("(RustSem.ReadCursor.new {})", t), Ty::Named("ReadCursor".into())));
+        }
+        if segs.len() == 2 && segs[0] == "BTreeSet" && last == "new" && args.is_empty() {
+            let t = match exp {
+                Some(t @ Ty::Set(_)) => t.clone(),
+                _ => Ty::Set(Box::new(Ty::Int(64))),
+            };
+            return Ok(("[]".into(), t));
+        }
         if segs.len() == 2 && segs[0] == "i32" && last == "from_le_bytes" && args.len() == 1 {
             let (t, ty) = self.expr(args[0], None, stmts)?;
             if !matches!(&ty, Ty::List(e, _) if matches!(**e, Ty::Int(8))) {
@@ -1183,6 +1217,20 @@ impl<'g> Cx<'g> {
                 }
             }
             self.tmp_reset(saved);
+        }
+        // `btree.pop_first()`: the first binding in key order, the place keeps the rest
+        if name == "pop_first" && m.args.is_empty() && self.is_place(&m.receiver) {
+            let pl = self.place(&m.receiver, stmts)?;
+            return match pl.ty() {
+                Ty::Map(kt, vt, false) => {
+                    let cur = self.read(&pl, stmts)?;
+                    let t = self.fresh();
+                    stmts.push(Stmt::Let(t.clone(), format!("(RustSem.Map.first? {})", cur)));
+                    self.write(&pl, format!("(RustSem.Map.without_first {})", cur), stmts)?;
+                    Ok((t, Ty::Opt(Box::new(Ty::Tuple(vec![*kt, *vt])))))
+                }
+                _ => self.bail(whole.span(), "`pop_first` is only supported on a `BTreeMap`"),
+            };
         }
         if super::analysis::MUTATING_METHODS.contains(&name.as_str()) {
             return self.bail(whole.span(), format!("`{}` is only supported as a statement on a place", name));
@@ -1346,6 +1394,16 @@ impl<'g> Cx<'g> {
                 let (k, _) = self.expr(args[0], Some(kt), stmts)?;
                 Ok((format!("(RustSem.Map.find? {} {})", r, k), Ty::Opt(vt.clone())))
             }
+            (Ty::Map(kt, vt, false), "first_key_value", 0) => {
+                Ok((format!("(RustSem.Map.first? {})", r), Ty::Opt(Box::new(Ty::Tuple(vec![(**kt).clone(), (**vt).clone()])))))
+            }
+            (Ty::Set(kt), "contains", 1) => {
+                let (k, _) = self.expr(args[0], Some(kt), stmts)?;
+                Ok((format!("(RustSem.Set.contains {} {})", r, k), Ty::Bool))
+            }
+            (Ty::Set(_), "len", 0) => Ok((format!("(RustSem.len {})", r), Ty::usize())),
+            (Ty::Set(_), "is_empty", 0) => Ok((format!("(RustSem.is_empty {})", r), Ty::Bool)),
+            (Ty::Set(kt), "iter", 0) => Ok((r, Ty::List(kt.clone(), ListKind::Iter))),
             (Ty::Map(_, _, _), "len", 0) => Ok((format!("(RustSem.len {})", r), Ty::usize())),
             (Ty::Map(_, _, _), "is_empty", 0) => Ok((format!("(RustSem.is_empty {})", r), Ty::Bool)),
             (Ty::Map(kt, vt, hash), "iter", 0) => {
